@@ -1,7 +1,7 @@
 SPECIFICATION GSpec
 CONSTANTS
   Seats = {1, 2, 3}
-  Included = {1, 2}
+  Included = {1, 3}
   Owner <- OwnerDistinct
   Alphabet <- GenAlphabet
   TimeoutBlock = 10
